@@ -387,7 +387,10 @@ func formatterFirstUse() engine.Unit {
 func firstUse(name string, calls []func() any, sameClass [][2]int) engine.Unit {
 	return engine.Unit{Name: "first-use: " + name, Run: func(r *engine.Rec) {
 		prog := func() ([]rt.ThreadSpec, func(*rt.Exec) []string) {
+			// every execution is a first use: the registries are emptied, and so is whatever else the collection
+			// and agent packages keep at package level (a registry need not be a map)
 			rt.ResetRegistries()
+			rt.ResetGlobalsOf("collection", "agent")
 			got := make([]any, len(calls))
 			outs := make([]rt.Outcome, len(calls))
 			var threads []rt.ThreadSpec
@@ -415,12 +418,23 @@ func firstUse(name string, calls []func() any, sameClass [][2]int) engine.Unit {
 						what = append(what, "two calls of one class accessor return different classes for one type\x00"+fmt.Sprintf("%T %p vs %p", got[p[0]], got[p[0]], got[p[1]]))
 					}
 				}
+				// "always return the one class for that type": every accessor, called once more when all is quiet, still
+				// returns the class it handed out during the concurrent first uses (a registration must not get lost)
+				if len(what) == 0 && len(ex.Stuck) == 0 {
+					for k := range calls {
+						var again any
+						if o := rt.Protect(1000000, func() { again = calls[k]() }); !o.Panicked && !outs[k].Panicked && again != got[k] {
+							what = append(what, "a class handed out during concurrent first uses is not the class the accessor returns afterwards\x00"+fmt.Sprintf("call %d: %T %p, afterwards %p", k, got[k], got[k], again))
+						}
+					}
+				}
 				return what
 			}
 		}
 		o := schedx.Opts{Name: "first-use: " + name, Desc: name, NoElide: true, CapA: 200000, Bounds: []int{2}, CapB: 200000}
 		schedx.Explore(r, prog, o)
 		rt.ResetRegistries()
+		rt.ResetGlobalsOf("collection", "agent")
 	}}
 }
 
@@ -458,6 +472,10 @@ func units(tier string) []engine.Unit {
 		firstUse("Sorter[int] and Collator[int]", []func() any{func() any { return age.Sorter[int]() }, func() any { return age.Collator[int]() }, func() any { return age.Collator[int]() }}, [][2]int{{1, 2}}),
 		firstUse("Queue[int], Stack[int], Queue[int]", []func() any{func() any { return col.Queue[int](N()) }, func() any { return col.Stack[int](N()) }, func() any { return col.Queue[int](N()) }}, [][2]int{{0, 2}}),
 		firstUse("Catalog, Map, Association of one type pair", []func() any{func() any { return col.Catalog[string, int](N()) }, func() any { return col.Map[string, int](N()) }, func() any { return col.Catalog[string, int](N()) }}, [][2]int{{0, 2}}),
+		firstUse("Array[int] and Array[string] (different type parameters of one class accessor)", []func() any{func() any { return col.Array[int](N()) }, func() any { return col.Array[string](N()) }}, nil),
+		firstUse("Set[int] and Set[string]", []func() any{func() any { return col.Set[int](N()) }, func() any { return col.Set[string](N()) }}, nil),
+		firstUse("Collator[int], Collator[string], Sorter[int]", []func() any{func() any { return age.Collator[int]() }, func() any { return age.Collator[string]() }, func() any { return age.Sorter[int]() }}, nil),
+		firstUse("Catalog[string,int] and Catalog[int,string]", []func() any{func() any { return col.Catalog[string, int](N()) }, func() any { return col.Catalog[int, string](N()) }}, nil),
 		firstUse("Iterator[int] twice", []func() any{func() any { return age.Iterator[int]() }, func() any { return age.Iterator[int]() }}, [][2]int{{0, 1}}),
 		firstUse("Array[int] via List.Make twice", []func() any{func() any { return col.List[int](N()).Make().GetClass() }, func() any { return col.List[int](N()).Make().GetClass() }}, [][2]int{{0, 1}}),
 	)
